@@ -18,6 +18,7 @@ mod props3;
 mod props4;
 mod run;
 mod simfs;
+mod twin;
 mod walparse;
 mod watchdog;
 mod world;
